@@ -14,9 +14,9 @@ package main
 //@   ensures @filtered {C18} forall(j, 0, len(result1), inList(blacklist, result1[j]) && inList(syscalls, result1[j]))
 //@   ensures @nodup {C18} noDup(syscalls) ==> noDup(result0)
 //@   ensures @fresh own(result0) && own(result1)
-//@   loop 1 binder k1
+//@   loop 1 binder k1 match range blacklist
 //@     invariant @filter nonnil(filter) && forallk(s, filter, has(filter, s) == exists(b, 0, k1, blacklist[b] == s))
-//@   loop 2 binder k2
+//@   loop 2 binder k2 match range syscalls
 //@     invariant @own own(out) && own(filtered)
 //@     invariant @kept forall(j, 0, len(out), !inList(blacklist, out[j]) && exists(i, 0, k2, syscalls[i] == out[j]))
 //@     invariant @all_kept forall(i, 0, k2, !inList(blacklist, syscalls[i]) ==> inList(out, syscalls[i]))
@@ -28,12 +28,12 @@ package main
 //@   ensures @set {C18} forallk(s, "String", inList(result0, s) == (inList(syscalls, s) || (inList(allowList, s) && has(archInfo.SyscallNames, s))))
 //@   ensures @nodup {C18} noDup(result0)
 //@   ensures @fresh own(result0)
-//@   loop 1 binder k1
+//@   loop 1 binder k1 match range syscalls
 //@     invariant @m nonnil(m) && forallk(s, m, has(m, s) == exists(i, 0, k1, syscalls[i] == s))
-//@   loop 2 binder k2
+//@   loop 2 binder k2 match range allowList
 //@     invariant @m nonnil(m) && forallk(s, m, has(m, s) == (inList(syscalls, s) || exists(a, 0, k2, allowList[a] == s && has(archInfo.SyscallNames, s))))
 //@     invariant @own own(added)
-//@   loop 3 binder vis
+//@   loop 3 binder vis match range m
 //@     invariant @out own(out) && forallk(s, m, vis[s] == inList(out, s)) && noDup(out)
 
 // ghost model of the scanner used by disasm (shared names, see the disasm contract file)
@@ -120,10 +120,10 @@ package main
 //@   hint @h2b {C18} afterBL(names, syscalls) && noDup(names) at after assign size#1
 //@   hint @h3 {C18} finalSet(names, syscalls) && noDup(names) at before call sort.Strings#1
 //@   assert @profile {C18} sortedList(names) && noDup(names) && finalSet(names, syscalls) at before call openOutput#1
-//@   loop 1 binder k1
+//@   loop 1 binder k1 match range syscalls
 //@     invariant @m nonnil(m) && forallk(n, m, has(m, n) == exists(j, 0, k1, syscalls[j].Num == n))
 //@     invariant @vals forallk(n, m, has(m, n) ==> exists(j, 0, k1, syscalls[j].Num == n && m[n] == syscalls[j]))
-//@   loop 2 binder vis
+//@   loop 2 binder vis match range m
 //@     invariant @own own(names)
 //@     invariant @from forallk(x, "String", inList(names, x) ==> existsk(n, m, vis[n] && has(m, n) && m[n].Name == x))
 //@     invariant @to forallk(n, m, vis[n] ==> inList(names, m[n].Name))
